@@ -17,7 +17,7 @@ Arguments create_tail : simpl never.
 (** ** extension of a run by effects that do not touch manifests *)
 Definition blob_only (e : effect) : Prop :=
   match e with
-  | EAddDebris _ | ERmDebris _ | ERenTemp _ _ | ERenPartial _ _ | ERmBlob _ | EFixBlob _ _ | EFixPartial _ => True
+  | EAddDebris _ | ERmDebris _ | ERenTemp _ _ | ERenPartial _ _ | ERmBlob _ | EFixBlob _ _ | EFixPartial _ | EPartRec _ _ _ | ERmPart _ _ => True
   | ETruncMan _ | EWriteMan _ _ | ERmMan _ => False
   end.
 
@@ -166,6 +166,50 @@ Section More.
     destruct okt; cbn [negb]; [|cbn; eapply Ext_trans; eassumption].
     assert (H7 := create_tail_ext r2 l2 q). destruct (create_tail size_of r2 l2 q) as [r7 m]. cbn in *.
     eapply Ext_trans; [exact Hb|]. eapply Ext_trans; eassumption.
+  Qed.
+
+  Lemma download_ext r l oc : Ext r (fst (download size_of r l oc)).
+  Proof.
+    unfold download, download_gen. set (h := dhex (ldg l)). destruct (bget h (rs r)); [apply Ext_refl|].
+    assert (E1 : Ext r (emit r (ERmPart h 0))) by (apply Ext_emit; [apply Ext_refl | exact I]).
+    assert (F : forall r1, Ext r r1 -> forall x, (match oc with
+                 | None => None
+                 | Some c => if size_of c =? 0 then Some (r1, None) else Some (emit (emit r1 (EPartRec h 0 PRTorn)) (EPartRec h 0 PRTodo), Some PRTodo)
+                 end) = Some x -> Ext r (fst x)).
+    { intros r1 H1 x. destruct oc as [c|]; [|discriminate]. destruct (size_of c =? 0); intros [= <-]; cbn [fst]; [exact H1|].
+      apply Ext_emit; [apply Ext_emit; [exact H1 | exact I] | exact I]. }
+    set (prep := match partrec_state h 0 (debris (rs r)) with Some PRTorn => _ | Some st => _ | None => _ end).
+    assert (P : forall x, prep = Some x -> Ext r (fst x)).
+    { subst prep. intros x. destruct (partrec_state h 0 (debris (rs r))) as [[| |]|].
+      - cbn [negb]. apply (F _ E1).
+      - intros [= <-]. apply Ext_refl.
+      - intros [= <-]. apply Ext_refl.
+      - apply (F r (Ext_refl r)). }
+    destruct prep as [[r1 st0]|] eqn:Ep.
+    - assert (H1 := P _ eq_refl). cbn [fst] in H1. destruct oc as [c|]; [|exact H1].
+      set (r2 := emit r1 (EAddDebris (DPartial h))).
+      assert (H2 : Ext r r2) by (apply Ext_emit; [exact H1 | exact I]).
+      set (r3 := match st0 with Some PRTodo => emit (emit r2 (EPartRec h 0 PRTorn)) (EPartRec h 0 PRDone) | _ => r2 end).
+      assert (H3 : Ext r r3) by (subst r3; destruct st0 as [[| |]|]; try exact H2; apply Ext_emit; [apply Ext_emit; [exact H2 | exact I] | exact I]).
+      set (r4 := match st0 with Some _ => emit r3 (ERmPart h 0) | None => r3 end).
+      assert (H4 : Ext r r4) by (subst r4; destruct st0; [apply Ext_emit; [exact H3 | exact I] | exact H3]).
+      destruct (dcolon (ldg l) && (c =? h)); cbn [fst]; apply Ext_emit; try exact H4; exact I.
+    - cbn [fst]. destruct (partrec_state h 0 (debris (rs r))) as [[| |]|]; try apply Ext_refl. exact E1.
+  Qed.
+
+  Lemma download_all_ext ls : forall cs r, Ext r (fst (download_all size_of r ls cs)).
+  Proof.
+    induction ls as [|l ls IH]; intros cs r; cbn [download_all]; [apply Ext_refl|].
+    assert (H1 := download_ext r l (hd None cs)).
+    destruct (download size_of r l (hd None cs)) as [r1 [hit|]]; cbn [fst] in *; [|exact H1].
+    specialize (IH (tl cs) r1). destruct (download_all size_of r1 ls (tl cs)). cbn in *. eapply Ext_trans; eassumption.
+  Qed.
+
+  Lemma verify_all_ext dl : forall r, Ext r (fst (verify_all r dl)).
+  Proof.
+    induction dl as [|[l hit] dl IH]; intros r; cbn; [apply Ext_refl|]. destruct hit; [apply IH|].
+    destruct (bget (dhex (ldg l)) (rs r)) as [c|]; [|apply Ext_refl].
+    destruct (dcolon (ldg l) && (c =? dhex (ldg l))); [apply IH | apply Ext_emit; [apply Ext_refl | exact I]].
   Qed.
 
   Lemma delete_unused_ext dm : forall r, Ext r (delete_unused r dm).
@@ -380,7 +424,7 @@ Section More.
     HM s -> (forall n m, In (EWriteMan n (Readable m)) es -> has_model_b m = true) -> HM (apply_list s es).
   Proof.
     induction es as [|e es IH]; intros s H Hw; [exact H|]. rewrite apply_list_cons. apply IH; [|intros n m Hi; apply (Hw n m); right; exact Hi].
-    intros n m Hl. unfold listed in Hl. destruct e as [d|d|h c|h c|h|n'|n' ms|n'|h c|h]; cbn in Hl; try (apply (H n m Hl)).
+    intros n m Hl. unfold listed in Hl. destruct e as [d|d|h c|h c|h|n'|n' ms|n'|h c|h|h i st|h i]; cbn in Hl; try (apply (H n m Hl)).
     - apply (In_aset name_eqb name_eqb_spec) in Hl as [[_ [=]]|[_ Hl]]. apply (H n m Hl).
     - apply (In_aset name_eqb name_eqb_spec) in Hl as [[-> <-]|[_ Hl]]; [apply (Hw n' m); left; reflexivity | apply (H n m Hl)].
     - apply (In_adel name_eqb name_eqb_spec) in Hl as [Hl _]. apply (H n m Hl).
@@ -508,17 +552,8 @@ Section More.
       unfold remove_layers. intros Hi. apply (Ext_no_write _ _ _ _ (fold_layer_remove_ext _ _)) in Hi. cbn in Hi. destruct Hi as [Hi|[]]. discriminate.
     - (* pull *) unfold op_pull, op_pull_gen. destruct sv as [v|]; cbn; [|intros []].
       cbn in Ho.
-      assert (Hd : forall ls cs r, Ext r (fst (download_all size_of r ls cs))).
-      { induction ls as [|l ls IH]; intros cs r; cbn [download_all]; [apply Ext_refl|].
-        assert (H1 : Ext r (fst (download size_of r l (hd None cs)))).
-        { unfold download. destruct (bget (dhex (ldg l)) (rs r)); [apply Ext_refl|]. destruct (hd None cs); [|apply Ext_refl].
-          destruct (size_of n0 =? 0); cbn [fst]; repeat (apply Ext_emit; [|exact I]); apply Ext_refl. }
-        destruct (download size_of r l (hd None cs)) as [r1 [hit|]]; cbn [fst] in *; [|exact H1].
-        specialize (IH (tl cs) r1). destruct (download_all size_of r1 ls (tl cs)). cbn in *. eapply Ext_trans; eassumption. }
-      assert (Hv : forall dl r, Ext r (fst (verify_all r dl))).
-      { induction dl as [|[l hit] dl IH]; intros r; cbn; [apply Ext_refl|]. destruct hit; [apply IH|].
-        destruct (bget (dhex (ldg l)) (rs r)); [|apply Ext_refl].
-        destruct (dcolon (ldg l) && (n0 =? dhex (ldg l))); [apply IH | apply Ext_emit; [apply Ext_refl | exact I]]. }
+      assert (Hd := fun ls cs r => download_all_ext ls cs r).
+      assert (Hv := fun dl r => verify_all_ext dl r).
       specialize (Hd (all_layers (sv_manifest v)) (sv_contents v) (init s)).
       destruct (download_all size_of (init s) (all_layers (sv_manifest v)) (sv_contents v)) as [r1 [dl|]]; cbn [fst] in *.
       2:{ intros Hi. destruct (Ext_no_write _ _ _ _ Hd Hi). }
